@@ -22,6 +22,7 @@ type CEnv struct {
 	names     map[string]Val
 	st        *State
 	old       *State
+	shadowed  map[string]*Val // callsite clauses: the caller's own meaning of names hidden by the callee's parameter names (caller(e))
 	loopEntry *State
 	loopHead  *State // step clauses: the state at the head of the current iteration
 	results   []Val
@@ -1113,6 +1114,20 @@ func (e *CEnv) callExpr(x *CExpr) (Val, error) {
 			}
 		}
 		return Val{}, fmt.Errorf("no local variable %s", x.Args[0].Name)
+	case "caller":
+		// caller(e): e as the function under verification reads it, i.e. without the callee's parameter names that a
+		// callsite clause binds (caller(metricName) is the caller's metricName, not the callee's parameter)
+		n := e.sub()
+		for k, pv := range e.shadowed {
+			delete(n.bound, k)
+			if pv != nil {
+				n.names[k] = *pv
+			} else {
+				delete(n.names, k)
+			}
+		}
+		n.shadowed = nil
+		return n.eval(x.Args[0])
 	case "param":
 		// param(x): the parameter x (its entry value), even when a local variable of the same name shadows it
 		n := e.sub()
